@@ -416,6 +416,24 @@ def grid_doc_violation(doc, out):
             if want not in (None, 'auto') and want != got:
                 return (f'item {ident}: grid-{axis} {start}/{end} placed at (line index, span) {got}, '
                         f'css-grid gives {want}')
+    # placement by template area: the item occupies the rectangle of the named area
+    if doc['areas'] is not None:
+        rect = {}
+        for y, row in enumerate(doc['areas']):
+            for x, name in enumerate(row):
+                if name:
+                    x0, y0, x1, y1 = rect.get(name, (x, y, x, y))
+                    rect[name] = (min(x0, x), min(y0, y), max(x1, x), max(y1, y))
+        for ident, (x, y, w, h) in positions.items():
+            it = items[ident]
+            for axis, start, end, got, pick in (('column', it['cs'], it['ce'], (x, w), (0, 2)),
+                                                ('row', it['rs'], it['re'], (y, h), (1, 3))):
+                if start != 'auto' and start == end and start[0] is None and start[1] is None and start[2] in rect:
+                    r = rect[start[2]]
+                    want = (r[pick[0]], r[pick[1]] - r[pick[0]] + 1)
+                    if got != want:
+                        return (f'item {ident}: grid-{axis}: {start[2]} (template area {start[2]!r} covers '
+                                f'{axis}s {want[0]}..{want[0] + want[1] - 1}) placed at (line index, span) {got}')
     # auto-placed items do not overlap earlier ones
     order = list(positions)
     for k, ident in enumerate(order):
